@@ -110,6 +110,7 @@ type lifeProbe struct {
 	c         *rt.Controller
 	cid       *int
 	handshake bool // the active handler waits for a greeting of the peer (which never comes, or a hang-up)
+	panicInactive bool // the inactive handler panics (cleanup code gone wrong)
 }
 
 func (p lifeProbe) HandleActive(ctx netty.ActiveContext) {
@@ -124,6 +125,9 @@ func (p lifeProbe) HandleActive(ctx netty.ActiveContext) {
 }
 func (p lifeProbe) HandleInactive(ctx netty.InactiveContext, ex netty.Exception) {
 	p.c.Emit("inactive:%d", ctx.Channel().ID())
+	if p.panicInactive {
+		panic("nv-inactive-handler-panic")
+	}
 	ctx.HandleInactive(ex)
 }
 func (p lifeProbe) HandleException(ctx netty.ExceptionContext, ex netty.Exception) {
@@ -136,8 +140,9 @@ type c13Op struct {
 }
 
 type c13Scenario struct {
-	threads   [][]c13Op
-	handshake bool
+	threads       [][]c13Op
+	handshake     bool
+	panicInactive bool
 }
 
 func (o c13Op) String() string {
@@ -148,7 +153,7 @@ func (o c13Op) String() string {
 }
 
 func genC13(rng *rand.Rand) *c13Scenario {
-	sc := &c13Scenario{handshake: rng.Intn(4) == 0}
+	sc := &c13Scenario{handshake: rng.Intn(4) == 0, panicInactive: rng.Intn(5) == 0}
 	nl := 1 + rng.Intn(2)
 	var t1 []c13Op
 	for k := 0; k < nl; k++ {
@@ -209,11 +214,11 @@ func runC13Scenario(sc *c13Scenario, strat rt.Strategy) *rt.Controller {
 		netty.WithChannel(netty.NewChannel()),
 		netty.WithChildInitializer(func(ch netty.Channel) {
 			c.Emit("chan:%d:%d", ch.ID(), f.connID(ch.Transport()))
-			ch.Pipeline().AddLast(blockingReader{c}, lifeProbe{c: c, handshake: sc.handshake})
+			ch.Pipeline().AddLast(blockingReader{c}, lifeProbe{c: c, handshake: sc.handshake, panicInactive: sc.panicInactive})
 		}),
 		netty.WithClientInitializer(func(ch netty.Channel) {
 			c.Emit("chan:%d:%d", ch.ID(), f.connID(ch.Transport()))
-			ch.Pipeline().AddLast(blockingReader{c}, lifeProbe{c: c, handshake: sc.handshake})
+			ch.Pipeline().AddLast(blockingReader{c}, lifeProbe{c: c, handshake: sc.handshake, panicInactive: sc.panicInactive})
 		}),
 	)
 	listeners := map[int]netty.Listener{} // the FIRST listener object created for url k (closed twice by the reuse scenario)
@@ -317,7 +322,19 @@ func runC13Scenario(sc *c13Scenario, strat rt.Strategy) *rt.Controller {
 						l.Close()
 					}
 				case "shutdown":
-					bs.Shutdown()
+					escaped := false
+					func() {
+						defer func() {
+							if r := recover(); r != nil {
+								escaped = true
+							}
+						}()
+						bs.Shutdown()
+					}()
+					if escaped {
+						c.Emit("shutdown:panic")
+						break
+					}
 					ctxDone := 0
 					if bs.Context().Err() != nil {
 						ctxDone = 1
@@ -339,7 +356,7 @@ func runC13Scenario(sc *c13Scenario, strat rt.Strategy) *rt.Controller {
 }
 
 func printC13(sc *c13Scenario, c *rt.Controller) {
-	emit("C13 cfg handshake=%d", b2i(sc.handshake))
+	emit("C13 cfg handshake=%d panicinactive=%d", b2i(sc.handshake), b2i(sc.panicInactive))
 	for ti, ops := range sc.threads {
 		ss := make([]string, len(ops))
 		for i, o := range ops {
